@@ -48,7 +48,7 @@ impl GenCfg {
             p_ref_dis: *rng.pick(&[0, 300, 800]),
             newline: rng.below(4) as u8,
             exotic: true,
-            big: if rng.chance(1, 40) { Some(*rng.pick(&[127usize, 128, 129, 255, 256, 257, 300, 1023, 1024, 1025, 4097, 65535, 65537])) } else { None },
+            big: if rng.chance(1, 40) { Some(*rng.pick(&[127usize, 128, 129, 255, 256, 257, 300, 1023, 1024, 1025, 4097, 4099, 8191, 65535, 65537])) } else { None },
         }
     }
 }
@@ -106,6 +106,7 @@ pub const EDGE_SCALARS: &[&str] = &[
     "-9223372036854775808", "-9223372036854775809", "18446744073709551615", "999999999999999999999", "0.1kW", "59s", "60s", "3600s", "86400s", "1min", "100%",
     "1e308", "1.7976931348623157e308", "1e309", "-1e309", "4.9e-324", "1e-400", "9007199254740993", "18446744073709551616", "0.1", "1E5", "1e+5", "1e", "1e+", "1_0", "1_", "1__0", "5.", ".5", "-", "-.5", "00012", "1kW/h%$", "1 kW",
     "1_000_000.000_1kW", "-0kW", "NaNkW", "INFkW", "-INF", "+INF", "+1", "0x10",
+    "C(1,99999999999999999999999)", "C(1,-99999999999999999999999)", "C(99999999999999999999999,1)", "C(1,1e30)", "C(0,360)", "C(0,-540.5)",
     "C(90,180)", "C(-90,-180)", "C(91,181)", "C(NaN,1)", "C(1)", "C(1,2,3)", "C(1e400,0)", "C(-0,-0)", "C( 1 , 2 )",
     "@", "@a b", "^", "^a b", "``", "Bin()", "Bin(\"a\",\"b\")", "bin(\"a\")", "B(\"\")", "Marker", "NaN", "NA", "Na", "T", "TRUE", "true", "N", "null",
 ];
@@ -499,8 +500,8 @@ impl<'r> Emitter<'r> {
         let mut ncols = self.rng.range(1, self.cfg.max_cols);
         let mut nrows = self.rng.range(0, self.cfg.max_rows);
         if let Some(big) = self.cfg.big {
-            if big <= 1025 && self.rng.chance(1, 3) {
-                if self.rng.chance(1, 2) {
+            if big <= 8191 && self.rng.chance(1, 3) {
+                if big <= 1025 && self.rng.chance(1, 2) {
                     ncols = big;
                 } else {
                     nrows = big;
@@ -715,6 +716,9 @@ pub fn field_sweep() -> Vec<String> {
         v.push(format!("2021-06-07T{a:02}:00:00Z"));
         v.push(format!("2021-06-07T12:{a:02}:00Z UTC"));
         v.push(format!("2021-06-07T12:00:{a:02}-04:00 New_York"));
+        v.push(format!("2021-06-07T12:00:{a:02}.9996-04:00 New_York"));
+        v.push(format!("2016-12-31T23:59:{a:02}.9994Z London"));
+        v.push(format!("2016-12-31T23:59:{a:02}.99951Z UTC"));
         v.push(format!("{:04}-02-29", 1900 + a));
         v.push(format!("00{a:02}-01-01"));
     }
